@@ -1527,3 +1527,20 @@ def _copy_copy(ctx, v):
     if isinstance(v, Arr):
         return np_copy(ctx, v)
     return v
+
+
+@lib('numpy.linalg.pinv', 'abstract')
+def np_pinv(ctx, a):
+    """Abstract pseudo-inverse: a fresh (cols x rows) matrix; the argument is recorded as a ghost."""
+    a = arr(ctx, a)
+    out = A.fresh_array(ctx, 'pinv', (a.shape[1], a.shape[0]), 'float')
+    ctx.__dict__.setdefault('ghost_pinv_calls', []).append({'input': a.snapshot(), 'out': out})
+    return out
+
+
+@lib('numpy.ndenumerate')
+def np_ndenumerate(ctx, a):
+    a = arr(ctx, a)
+    if a.ndim != 1 or S.is_z3(a.shape[0]):
+        raise Unsupported('ndenumerate over a symbolic / multi-dimensional array')
+    return IterList([((i,), a.at((i,))) for i in range(a.shape[0])])
